@@ -8,6 +8,7 @@ require (
 	github.com/dfklegend/cell2/apimapper v0.0.0-00010101000000-000000000000
 	github.com/dfklegend/cell2/pomelonet v0.0.0-00010101000000-000000000000
 	github.com/dfklegend/cell2/utils v0.0.0-00010101000000-000000000000
+	github.com/gorilla/websocket v1.5.0
 	github.com/sirupsen/logrus v1.9.0
 	go.etcd.io/etcd/api/v3 v3.5.10
 	go.etcd.io/etcd/client/v3 v3.5.10
@@ -37,7 +38,6 @@ require (
 	github.com/gogo/protobuf v1.3.2 // indirect
 	github.com/golang/protobuf v1.5.3 // indirect
 	github.com/google/uuid v1.5.0 // indirect
-	github.com/gorilla/websocket v1.5.0 // indirect
 	github.com/hashicorp/hcl v1.0.0 // indirect
 	github.com/jmespath/go-jmespath v0.3.0 // indirect
 	github.com/json-iterator/go v1.1.12 // indirect
